@@ -20,7 +20,7 @@ from harness.runner import run_property
 from harness.trace import Run
 
 PROP = "C01"
-THEOREMS = ["Lbfgsb.C01.run_direction_descent", "Lbfgsb.C01.state_direction_descent", "Lbfgsb.C01.iterBody_dinv", "Lbfgsb.C01.fresh_dinv", "Lbfgsb.C01.reach_dinv", "Lbfgsb.C01.complete_iteration_descent_curv", "Lbfgsb.C01.descent_from_memory_invariant", "Lbfgsb.C01.kernel_minv_invertible", "Lbfgsb.C09.complete_iteration_descent_solved", "Lbfgsb.C01.projgr_zero_iff_kkt", "Lbfgsb.C01.d0_zero_iff_kkt", "Lbfgsb.C01.nonstationary_moves",
+THEOREMS = ["Lbfgsb.C01.run_direction_descent", "Lbfgsb.C01.state_direction_descent", "Lbfgsb.C01.iterBody_dinv", "Lbfgsb.C01.fresh_dinv", "Lbfgsb.C01.reach_dinv", "Lbfgsb.C01.iterBody_gtol", "Lbfgsb.C01.complete_iteration_descent_curv", "Lbfgsb.C01.descent_from_memory_invariant", "Lbfgsb.C01.kernel_minv_invertible", "Lbfgsb.C09.complete_iteration_descent_solved", "Lbfgsb.C01.projgr_zero_iff_kkt", "Lbfgsb.C01.d0_zero_iff_kkt", "Lbfgsb.C01.nonstationary_moves",
             "Lbfgsb.C01.moving_breakpoint_pos", "Lbfgsb.C01.d0_descent_term",
             "Lbfgsb.C01.nonstationary_cauchy_decrease", "Lbfgsb.C01.nonstationary_descent", "Lbfgsb.C01.model_iteration_descent", "Lbfgsb.kernelInput_sizes", "Lbfgsb.buildMinv_symm", "Lbfgsb.complete_iteration_descent", "Lbfgsb.first_iteration_descent"]
 MODULES = ["LbfgsbVerif.Props.C01Run", "LbfgsbVerif.Props.C01Curv", "LbfgsbVerif.Props.C09Solve", "LbfgsbVerif.Props.C01", "LbfgsbVerif.Props.C01Descent", "LbfgsbVerif.Props.Kernels"]
